@@ -27,6 +27,7 @@ import json
 from typing import Any
 
 from flask import Blueprint, url_for
+from markupsafe import Markup
 
 from dashlive.utils.objects import flatten_iterable
 from dashlive.utils.date_time import (
@@ -200,10 +201,12 @@ def xmlSafe(value: str | None) -> str:
     """
     if value is None:
         return ""
-    if not isinstance(value, str):
+    if type(value) is not str:
         value = str(value)
-    return (value.replace('&', '&amp;').replace('<', '&lt;')
-            .replace('>', '&gt;').replace('"', '&quot;'))
+    # Markup: templates with a .xml name are auto-escaped by Flask and
+    # would otherwise escape the result a second time
+    return Markup(value.replace('&', '&amp;').replace('<', '&lt;')
+                  .replace('>', '&gt;').replace('"', '&quot;'))
 
 @custom_tags.app_template_filter()
 def sortedAttributes(value):
